@@ -694,7 +694,7 @@ class HistKind(Kind):
                     yield mk(n, comp, mode, 'all_compositions')
                 k += 1
         # --- random compositions above
-        for i in range(40 if quick else 700):
+        for i in range(40 if quick else 400):
             n = rng.randint(8, 40)
             yield mk(n, random_composition(rng, n), MODES[i % 4], 'random')
 
